@@ -146,8 +146,8 @@ class Ctx:
         if z3.is_false(cond): return False
         i = len(self.trace)
         if i < len(self.prefix):
-            d = self.prefix[i]
-            self.trace.append((d, False))
+            d, alt = self.prefix[i]
+            self.trace.append((d, alt))
             c = cond if d else z3.Not(cond)
             self.solver.add(c); self.assumes.append(c)
             return d
@@ -876,7 +876,8 @@ def explore(harness, harness_id, shape=None, max_paths=20000, timeout_ms=60000, 
             k -= 1
         if k < 0:
             break
-        prefix = [d for d, _ in tr[:k]] + [not tr[k][0]]
+        # keep the open alternatives of the earlier decisions; the flipped one is now exhausted
+        prefix = list(tr[:k]) + [(not tr[k][0], False)]
         if stats.paths >= max_paths:
             raise HarnessError('path cap %d exceeded in %s' % (max_paths, harness_id))
     if stats.paths == stats.aborted:
